@@ -126,7 +126,7 @@ AlphabetOf ==
     [] Cfg = "brif" -> AlphaBrIf
     [] Cfg = "brif2" -> AlphaBrIf2
     [] Cfg = "mem" -> AlphaMem [] Cfg = "call" -> AlphaCall [] Cfg = "i64" -> AlphaI64
-    [] Cfg \in {"witness", "alu", "struct", "valstruct"} -> {}
+    [] Cfg \in {"witness", "alu", "struct", "valstruct", "stress"} -> {}
     [] Cfg = "val" -> AlphaVal
     [] Cfg = "host" -> AlphaHost
     [] Cfg = "all" -> AlphaCtl \cup AlphaCtl2 \cup AlphaLoop \cup AlphaMem \cup AlphaCall \cup AlphaI64 \cup AlphaBrIf
@@ -205,10 +205,26 @@ ValBodies(dummy) ==
             c \in {<< C32(1) >>, << C64(1) >>, <<>>}, bt \in {0, 2, 4}, a \in Post, b \in Post, p2 \in {<<>>, << C32(5) >>, << Drop, C32(1) >>} }
   \cup { c \o << Iff(bt) >> \o a \o << End >> \o p2 \o << End >> : c \in {<< C32(1) >>}, bt \in {0, 2, 4}, a \in Post, p2 \in {<<>>, << C32(5) >>} }
 
+(* register-allocation stress (D1, D5 and their relatives): values are pushed before a void control skeleton whose holes write
+   the locals those values refer to, and are consumed after it.  Conditions are themselves pending references. *)
+Pend == { << LGet(0) >>, << LGet(1) >>, << LGet(0), LGet(1) >>, << LGet(0), LGet(0) >>, << C32(7), LGet(0) >> }
+Wr == { <<>>, << C32(5), LSet(0) >>, << LGet(1), LSet(0) >>, << LGet(0), C32(1), Bin(2, "add"), LSet(0) >>, << C32(5), LTee(0), Drop >>, << LGet(0), LSet(1) >> }
+CountDown == << LGet(1), C32(-1), Bin(2, "add"), LTee(1), BrIf(0) >>
+Skel(dummy) ==
+  { c \o << Iff(0) >> \o a \o << Els >> \o b \o << End >> : c \in Conds, a \in Wr, b \in Wr }
+  \cup { << Blk(0) >> \o a \o c \o << BrIf(0) >> \o b \o << End >> : c \in Conds, a \in Wr, b \in Wr }
+  \cup { << Lop(0) >> \o a \o CountDown \o << End >> : a \in Wr }
+  \cup { << Lop(0) >> \o c \o << Iff(0) >> \o a \o << End >> \o CountDown \o << End >> : c \in Conds, a \in Wr }
+  \cup { << Blk(0), Blk(0) >> \o c \o << BrTab(<<0, 1>>, 1) >> \o a \o << End >> \o b \o << End >> : c \in Conds, a \in Wr, b \in Wr }
+  \cup { << Blk(0), Lop(0) >> \o a \o c \o << BrIf(1) >> \o CountDown \o << End, End >> : c \in Conds, a \in Wr }
+Use(n) == IF n = 1 THEN { << End >>, << LGet(0), Bin(2, "add"), End >> } ELSE { << Bin(2, "add"), End >>, << Drop, End >>, << LGet(0), Bin(2, "add"), Bin(2, "add"), End >> }
+StressBodies(dummy) == { p \o k \o u : p \in Pend, k \in Skel(0), u \in Use(1) \cup Use(2) }
+
 WellTyped(b) == \A i \in 1..Len(b) : (b[i].op = "const" => Len(b[i].v) = b[i].t)
 FixedBodies == IF Cfg = "witness" THEN Witnesses
                ELSE IF Cfg = "struct" THEN {b \in StructBodies(0) : ValidBody(GenCtx, b)}
                ELSE IF Cfg = "valstruct" THEN ValBodies(0)
+               ELSE IF Cfg = "stress" THEN {b \in StressBodies(0) : ValidBody(GenCtx, b)}
                ELSE {b \in ALUBodies(0) : WellTyped(b)}
 (* fixed bodies are classified by the recogniser: valid ones are executed by the reference, invalid ones only carry the verdict *)
 FInit == body \in FixedBodies /\ vs = VInit(2) /\ phase = (IF ValidBody(GenCtx, body) THEN "done" ELSE "bad")
